@@ -42,7 +42,8 @@ TotWits(e, c) ==
 \* [ws |-> witnesses, amb |-> the reference renderer reads the Markdown differently from the AST]
 ConvJudge(e, c) ==
   LET tot == {[kind |-> <<"total">> \o v, ks |-> {"fid-case"}, case |-> c] : v \in ViolTotal(e.ret, e.saveret, e.pk)}
-      ambiguous == JudgeFid(e.ast, cur.opts, e.ref) # {}
+      \* (the reference renderer knows no "table support off": it shows a parsed table as a table)
+      ambiguous == JudgeFid(e.ast, [cur.opts EXCEPT !.tables = TRUE], e.ref) # {}
       fid == IF e.ret # "ok" \/ e.saveret # "ok" \/ ambiguous THEN {}
              ELSE {[kind |-> <<"fid", w.fld>>, ks |-> w.ks, case |-> c] : w \in JudgeFid(e.ast, cur.opts, e.body)}
       mach == IF e.opts # cur.opts THEN {[kind |-> <<"MACH", "opts">>, ks |-> {}, case |-> c]} ELSE {}
